@@ -392,7 +392,13 @@ class DilCase:
         max_steps = self.P["settle_steps"] if max_steps is None else max_steps
         t_end = W.clock.seconds() + max_time
         n = 0
+        limit = self.P.get("max_reconnects")
+        seen0 = self._selected_seen()
         while n < max_steps:
+            if limit is not None and len(self._selected_seen() - seen0) > limit:
+                # no faults are injected here: every replacement of the connection in use was caused by
+                # the code under test dropping it (or failing to keep it) - a livelock, reported as such
+                return "reconnect-loop"
             ev = W.enabled()
             if ev:
                 e = ev[n % len(ev)]
@@ -416,6 +422,15 @@ class DilCase:
                 after_step(self)
             n += 1
         return "steps"
+
+    def _selected_seen(self):
+        """links on which some end has (had) a selected L2 protocol"""
+        out = getattr(self, "_sel_seen", set())
+        for l in self.W.net.all_links:
+            if l.seq not in out and any(getattr(unwrap(t.protocol), "_manager", None) is not None for t in (l.a, l.b)):
+                out.add(l.seq)
+        self._sel_seen = out
+        return set(out)
 
     def close_all(self):
         for i in range(2):
